@@ -276,8 +276,84 @@ func checkFreshDecodeDest(c *Check, fname string) {
 	c.Req(n >= 1, p.Name(F), "-", "decode:sites", "decode sites inside the loop", "")
 }
 
+// WIRING: the background loops every property assumes are running are started by Run, unconditionally or under exactly
+// the configuration switch that owns them, after the cluster handle exists.
+func checkRunWiring(c *Check) {
+	p := c.p
+	R := p.MustFunc("(*app.App).Run")
+	fa := p.FA(R)
+	want := map[string]string{ // loop → gate ("" = unconditional)
+		"(*app.App).healthChecker":         "",
+		"(*app.App).recoveryChecker":       "",
+		"(*app.App).replicationLagChecker": "",
+		"(*app.App).stateFileHandler":      "",
+		"(*app.App).externalCAFileChecker": "ExternalReplicationType",
+		"(*app.App).replMonWriter":         "ReplMon",
+	}
+	seen := map[string]bool{}
+	for _, b := range R.Blocks {
+		for _, in := range b.Instrs {
+			g, ok := in.(*ssa.Go)
+			if !ok {
+				continue
+			}
+			callee := g.Call.StaticCallee()
+			if callee == nil {
+				continue
+			}
+			name := p.Name(callee)
+			name = strings.TrimSuffix(name, "$bound")
+			gate, known := want[name]
+			if !known {
+				continue
+			}
+			seen[name] = true
+			// conditions on the way: every If that dominates the statement and whose other branch skips it
+			var conds []string
+			for _, bb := range R.Blocks {
+				iff := blockIf(bb)
+				if iff == nil || !bb.Dominates(b) || bb == b {
+					continue
+				}
+				// does the other successor reach the end of Run's start-up without this go statement? (it is a guard of it)
+				for si := range bb.Succs {
+					if reaches(bb.Succs[si], b) {
+						continue
+					}
+					t := p.T(iff.Cond)
+					conds = append(conds, t.String())
+				}
+			}
+			if gate == "" {
+				// only error exits of the start-up may precede it: every guarding condition is an error test
+				okc := true
+				for _, cd := range conds {
+					if !strings.Contains(cd, "nil") && !strings.Contains(cd, "#1") {
+						okc = false
+					}
+				}
+				c.Req(okc, p.Name(R), p.InstrPos(in), "wiring:"+afterDot(name), "the loop is started unconditionally (only a failed start-up step precedes it)", "guarded by "+strings.Join(conds, " ; "))
+			} else {
+				has := false
+				for _, cd := range conds {
+					if strings.Contains(cd, gate) {
+						has = true
+					}
+				}
+				c.Req(has, p.Name(R), p.InstrPos(in), "wiring:"+afterDot(name), "the loop is started under its own configuration switch ("+gate+")", "guarded by "+strings.Join(conds, " ; "))
+			}
+			ok2, path := fa.PrecededBy(in, isCallTo(p, "(*app.App).newDBCluster"))
+			c.Req(ok2, p.Name(R), p.InstrPos(in), "wiring:"+afterDot(name)+":after-cluster", "the loop starts after the cluster handle was created", "path: "+fa.PathString(path))
+		}
+	}
+	for name := range want {
+		c.Req(seen[name], p.Name(R), "-", "wiring:"+afterDot(name)+":started", "Run starts the loop", "no go statement for it")
+	}
+}
+
 func init() {
 	sharedRules = append(sharedRules,
+		sharedRule{Suffix: "WIRING", Props: []string{"C02", "C05", "C11", "C15", "C20"}, Body: checkRunWiring, Doc: "(WIRING) Run starts the health, recovery, lag and state-file loops unconditionally and the CA-file and repl_mon loops under their own configuration switch, all after the cluster handle exists"},
 		sharedRule{Suffix: "ROWSERR", Props: []string{"C01", "C13", "C20"}, Body: checkRowsErr, Doc: "(ROWSERR) a single-row reader answers 'no row' only after rows.Err() returned nil"},
 		sharedRule{Suffix: "PARALLEL", Props: []string{"C01", "C08"}, Body: checkRunParallel, Doc: "(PARALLEL) the fan-out helper records an entry for every input, nil results included"},
 		sharedRule{Suffix: "LOOPALL", Props: []string{"C04"}, Body: func(c *Check) {
